@@ -424,7 +424,7 @@ IDIOMS = ["__import__('os').system('true')", "().__class__.__bases__[0].__subcla
           "{1: 2}", "{1, 2}", "not x", "~x", "x is y", "x in (1,)", "x @ y", "x << 1", "x | 1", "x & 1", "x ^ 1",
           "x >> 1", "await x", "(yield)", "*x", "compile('1','','eval')", "type(x)", "vars()", "dir()", "print(1)",
           "__import__", "os", "breakpoint()", "input()", "x.__init__.__globals__", "[].append(1)", "''.join(('a',))",
-          "str.format('{0.__class__}', x)"]
+          "str.format('{0.__class__}', x)", "len(x)", "sorted(x)", "open(x)", "sum(x)", "len", "id(x)"]
 
 
 def corpus():
@@ -620,12 +620,41 @@ def run(tier: str) -> int:
         rep.coverage["first_disagreements"] = disagreements[:5]
 
     # ---- escape-idiom corpus through the public API ---------------------------------------------
+    first_pass = {}
     for src in corpus():
         stats["corpus"] += 1
         tree = ast.parse(src, mode="eval")
         j = to_json(tree)
         acc2, err2, fn, ncalls = compile_real(se, src)
+        first_pass[src] = (acc2, err2)
         check_public(rep, se, src, j, acc2, err2, fn, ncalls, stats)
+    # ---- the same corpus after other evaluators were used: evaluators built with extra functions (every builtin the corpus
+    # calls), and sweep factories; the verdict of a default evaluator is a function of the text and the declared names only
+    called = set()
+    for src in first_pass:
+        for n in ast.walk(ast.parse(src, mode="eval")):
+            if isinstance(n, ast.Call) and isinstance(n.func, ast.Name) and hasattr(builtins, n.func.id):
+                called.add(n.func.id)
+    extras = {name: getattr(builtins, name) for name in sorted(called)}
+    for maker in (lambda: se.ExpressionEvaluator(allowed_funcs=dict(extras)), lambda: se.ExpressionEvaluator(dict(extras)),
+                  lambda: se.ExpressionEvaluator(allowed_funcs={})):
+        try:
+            other = maker()
+            for text in ("x * 2", "abs(x) + y", "len(x)", "max(x, y)"):
+                try:
+                    other.compile(text, {"x", "y"})
+                except Exception:  # noqa: BLE001  (not judged here: what an evaluator with extra functions accepts)
+                    pass
+        except Exception:  # noqa: BLE001
+            pass
+    stats["history_corpus"] = 0
+    for src, (acc1, err1) in first_pass.items():
+        acc2, err2, fn, ncalls = compile_real(se, src)
+        stats["history_corpus"] += 1
+        if (acc2, err2) != (acc1, err1):
+            rep.add_violation("verdict-depends-on-history:other-evaluator-with-extra-functions",
+                              "a default evaluator gives another verdict on the same text after an evaluator built with extra functions was used",
+                              {"source": src, "declared": NAMES, "before": [acc1, err1], "after": [acc2, err2], "extra_functions": sorted(extras)})
     # accepted expressions must evaluate without builtins, and validation precedes evaluation
     for src in ["abs(x) + max(x, y) * 2", "round(x / y, 2) if x > y else int(y)", "(x, str(y), bool(x), float(1))",
                 "min(x, y) // 2 % 3 ** 2", "-x and +y or 0", "x <= y != 2 >= 1 == 1"]:
